@@ -188,17 +188,19 @@ impl Backend {
                 match ctx {
                     CompletionContext::FunctionSignature {
                         function_name,
+                        function_line,
                         is_fixture,
                         declared_params,
                         fixture_scope,
-                        ..
                     } => {
                         // In function signature - suggest fixtures as parameters (filter already declared)
                         // When editing a fixture, exclude itself from suggestions
+                        let current_fixture =
+                            self.fixture_name_of_function(&file_path, function_line, function_name);
                         let opts = CompletionOpts {
                             fixture_scope,
                             current_fixture_name: if is_fixture {
-                                Some(function_name.as_str())
+                                Some(current_fixture.as_str())
                             } else {
                                 None
                             },
@@ -220,10 +222,12 @@ impl Backend {
                         ..
                     } => {
                         // In function body - suggest fixtures with auto-add to parameters
+                        let current_fixture =
+                            self.fixture_name_of_function(&file_path, function_line, function_name);
                         let opts = CompletionOpts {
                             fixture_scope,
                             current_fixture_name: if is_fixture {
-                                Some(function_name.as_str())
+                                Some(current_fixture.as_str())
                             } else {
                                 None
                             },
@@ -253,6 +257,35 @@ impl Backend {
         }
 
         Ok(None)
+    }
+
+    /// The name under which the fixture whose function starts at `function_line` is
+    /// registered: the `name=` of its decorator if it has one, else the function's name.
+    fn fixture_name_of_function(
+        &self,
+        file_path: &std::path::Path,
+        function_line: usize,
+        function_name: String,
+    ) -> String {
+        // Copy the names out: no guard of one map is held while the other is read
+        let Some(names) = self
+            .fixture_db
+            .file_definitions
+            .get(file_path)
+            .map(|names| names.clone())
+        else {
+            return function_name;
+        };
+        names
+            .iter()
+            .find(|name| {
+                self.fixture_db.definitions.get(*name).is_some_and(|defs| {
+                    defs.iter()
+                        .any(|def| def.file_path == file_path && def.line == function_line)
+                })
+            })
+            .cloned()
+            .unwrap_or(function_name)
     }
 
     /// Create completion items for fixtures (for function signature context)
